@@ -107,10 +107,24 @@ Definition P_b (k : case) : bool :=
   order_ok [] (length (c_runs c)) (c_trace c) &&
   runs_ok (c_trace c) 0 (spec_runs (k_api k) (k_from k) (c_runs c)).
 
-(* observable part of a duty: slot, the three arrays, the size of each of its own committees *)
+(* observable part of a duty: slot, the rows (validator, committee index, position) as a multiset
+   -- the order of the rows inside a duty is not part of the property, and the attester model is run
+   on the rows in the order observed -- and the size of each of its own committees *)
+Fixpoint rows_of (vals comms poss : list N) : list (N * N * N) :=
+  match vals, comms, poss with
+  | v :: vs, c :: cs, p :: ps => (v, c, p) :: rows_of vs cs ps
+  | _, _, _ => []
+  end.
+
+Definition row_key (r : N * N * N) : N := (fst (fst r) * two64 + snd (fst r)) * two64 + snd r.
+
+Definition duty_rows (d : duty) : list (N * N * N) := sort_by row_key (rows_of (d_vals d) (d_comms d) (d_poss d)).
+
 Definition duty_eqb (a b : duty) : bool :=
-  (d_slot a =? d_slot b) && list_eqb N.eqb (d_vals a) (d_vals b) &&
-  list_eqb N.eqb (d_comms a) (d_comms b) && list_eqb N.eqb (d_poss a) (d_poss b) &&
+  (d_slot a =? d_slot b) &&
+  Nat.eqb (length (d_vals a)) (length (d_vals b)) && Nat.eqb (length (d_comms a)) (length (d_comms b)) &&
+  Nat.eqb (length (d_poss a)) (length (d_poss b)) &&
+  list_eqb (prod_eqb (prod_eqb N.eqb N.eqb) N.eqb) (duty_rows a) (duty_rows b) &&
   forallb (fun c => size_of a c =? size_of b c) (d_comms a).
 
 (* a run "from the api" was given the merged duty of its slot *)
